@@ -8,9 +8,12 @@ C32 — property theorems. The statement (properties.jsonl):
 
 The theorems quantify over every configuration (all flag combinations, all paths, all
 "facts" about the world: parseable or not, signing succeeds or not, …) and every initial
-file system. `WF` (an existing entry has an existing parent directory) is the only
+file system — and over every `Cfg.rho`, the map from path spellings to locations, i.e. over
+every aliasing between PATH, `-o` and the sidecar path (`./x`, `sub/../x`, absolute paths,
+directory links …). `WF` (an existing entry has an existing parent directory) is the only
 assumption on the file system and is needed only for files written *into* a fresh report
-folder. The second sentence of the statement is about the SDK's signing and validation
+folder. "Refusal implies no action" is *not* a theorem: see the section on refusals for the
+exact characterisation and the proved counter-example. The second sentence of the statement is about the SDK's signing and validation
 and is checked on the implementation by the harness (read-back of every output);
 `signed_ok_output_present` is its model-level part: an `ok` outcome of a signing run
 means the output (and the sidecar, when asked for) was written by this run.
@@ -23,11 +26,22 @@ def WF (fs : FS) : Prop := ∀ p, p ≠ [] → fs p ≠ .absent → fs p.dropLas
 /-- the location held nothing before the run -/
 def Fresh (fs : FS) (p : Loc) : Prop := fs p = .absent
 
-/-- What a run may change: the declared output itself or anything inside it (output
-folder), the sidecar next to the output when `--sidecar` is given, and missing parent
-directories of the output (which can only be created). -/
+/-- the output names a folder that the run fills: report / ingredient folder (no manifest
+definition) or the destination of the `fragment` sub-command -/
+def FolderMode (cfg : Cfg) : Prop := cfg.msrc = .none ∨ ∃ g r, cfg.cmd = .fragment g r
+
+/-- What a run may change. There must *be* a declared output (`-o`); then: the location the
+output string leads to; anything inside it when the output is a folder the run fills
+(`FolderMode`) — and only then; the sidecar next to the output when `--sidecar` is given;
+missing parent directories of the output (which can only be created).
+Without `-o` nothing is declared, and in signing mode `-o .` declares the working directory
+entry itself, not its content. -/
 def Declared (cfg : Cfg) (fs : FS) (p : Loc) : Prop :=
-  outLoc cfg <+: p ∨ (cfg.sidecar = true ∧ p = sidecarLoc cfg) ∨ (p <+: outLoc cfg ∧ fs p = .absent)
+  ∃ output, cfg.output = some output ∧
+    (p = cfg.rho output
+      ∨ (FolderMode cfg ∧ cfg.rho output <+: p)
+      ∨ (cfg.sidecar = true ∧ p = cfg.rho (withExtension output "c2pa"))
+      ∨ (p <+: cfg.rho output ∧ fs p = .absent))
 
 theorem fresh_child {fs : FS} (hwf : WF fs) {out : Loc} (n : String) (h : fs out = .absent) :
     fs (out ++ [n]) = .absent := by
@@ -85,38 +99,40 @@ theorem runSt_declared (cfg : Cfg) (fs : FS) (st : St)
           · split
             · exact h
             · rename_i output ho
-              have hout : outLoc cfg = resolve output := by simp [outLoc, ho]
-              have hsc : sidecarLoc cfg = resolve (withExtension output "c2pa") := by
-                simp [sidecarLoc, ho]
-              have near : ∀ q, (q <+: resolve output ∨ resolve output <+: q) → fs q = .absent →
-                  Declared cfg fs q := by
-                intro q hq ha
+              have near : FolderMode cfg → ∀ q, (q <+: cfg.rho output ∨ cfg.rho output <+: q) →
+                  fs q = .absent → Declared cfg fs q := by
+                intro hfm q hq ha
                 rcases hq with hq | hq
-                · exact Or.inr (Or.inr ⟨hout ▸ hq, ha⟩)
-                · exact Or.inl (hout ▸ hq)
+                · exact ⟨output, ho, Or.inr (Or.inr (Or.inr ⟨hq, ha⟩))⟩
+                · exact ⟨output, ho, Or.inr (Or.inl ⟨hfm, hq⟩)⟩
               split
-              · refine fragBranch_inv h near ?_
+              · rename_i glob rends hcmd
+                have hfm : FolderMode cfg := Or.inr ⟨glob, rends, hcmd⟩
+                refine fragBranch_inv h (near hfm) ?_
                 intro r _ d hd _
                 unfold initDest at hd
                 split at hd
                 · cases hd
                 · cases hd
-                  exact Or.inl (hout ▸ ⟨_, rfl⟩)
-              · refine signBranch_inv h (fun _ => Or.inl (hout ▸ List.prefix_refl _))
-                  (fun hs _ => Or.inr (Or.inl ⟨hs, hsc.symm⟩)) ?_
+                  exact ⟨output, ho, Or.inr (Or.inl ⟨hfm, ⟨_, rfl⟩⟩)⟩
+              · refine signBranch_inv h (fun _ => ⟨output, ho, Or.inl rfl⟩)
+                  (fun hs _ => ⟨output, ho, Or.inr (Or.inr (Or.inl ⟨hs, rfl⟩))⟩) ?_
                 intro q hq ha
-                exact near q (Or.inl ((prefixes_prefix _ _ hq).trans (prefix_dropLast _))) ha
-        · split
+                exact ⟨output, ho, Or.inr (Or.inr (Or.inr
+                  ⟨(prefixes_prefix _ _ hq).trans (prefix_dropLast _), ha⟩))⟩
+        · rename_i hmne
+          have hm : cfg.msrc = .none := by simpa using hmne
+          have hfm : FolderMode cfg := Or.inl hm
+          split
           · exact h
           · split
             · rename_i output ho
-              have hout : outLoc cfg = resolve output := by simp [outLoc, ho]
-              refine folderBranch_inv h ?_ (fun _ q hq => Or.inl (hout ▸ hq))
-                (fun n _ => Or.inl (hout ▸ ⟨[n], rfl⟩))
+              refine folderBranch_inv h ?_ (fun _ q hq => ⟨output, ho, Or.inr (Or.inl ⟨hfm, hq⟩)⟩)
+                (fun n _ => ⟨output, ho, Or.inr (Or.inl ⟨hfm, ⟨[n], rfl⟩⟩)⟩)
               intro q hq ha
               rcases hq with hq | hq
-              · exact Or.inr (Or.inr ⟨hout ▸ hq, ha⟩)
-              · exact Or.inl (hout ▸ hq)
+              · exact ⟨output, ho, Or.inr (Or.inr (Or.inr ⟨hq, ha⟩))⟩
+              · exact ⟨output, ho, Or.inr (Or.inl ⟨hfm, hq⟩)⟩
             · exact h
 
 /-! ### the property -/
@@ -153,65 +169,342 @@ theorem undeclared_untouched (cfg : Cfg) (fs : FS) :
     ∀ p, ¬ Declared cfg fs p → (run cfg fs).st.fs p = fs p :=
   (runSt_declared cfg fs _ (Inv.init fs _)).agree
 
-/-- never the input, never siblings: an existing entry that is neither the output (or
-inside the output folder) nor the requested sidecar survives every run, forced or not. -/
+/-! ### no vacuity through a missing or degenerate `-o` -/
+
+theorem runSt_no_output (cfg : Cfg) (st : St) (h : cfg.output = none) : (runSt cfg st).st = st := by
+  unfold runSt
+  simp only [h]
+  repeat' split
+  all_goals rfl
+
+/-- **A run without `-o` performs no action at all**, whatever the other options and facts
+(so `Declared`, which asks for a declared output, is not satisfied by accident). -/
+theorem no_output_no_acts (cfg : Cfg) (fs : FS) (h : cfg.output = none) :
+    (run cfg fs).st.acts = [] := by
+  unfold run
+  rw [runSt_no_output cfg _ h]
+
+theorem no_output_state (cfg : Cfg) (fs : FS) (h : cfg.output = none) :
+    (run cfg fs).st.fs = fs := by
+  unfold run
+  rw [runSt_no_output cfg _ h]
+
+/-- **In signing mode only three kinds of location are ever touched** (forced or not): the
+location of the output string itself, the requested sidecar, a missing ancestor directory of
+the output. In particular `-o .` (location `[]`) does not make the content of the working
+directory fair game. -/
+theorem sign_mode_touches (cfg : Cfg) (fs : FS) (hfm : ¬ FolderMode cfg) :
+    ∀ a ∈ (run cfg fs).st.acts, ∀ p, a.touches p = true →
+      cfg.output.isSome = true ∧
+      (p = outLoc cfg ∨ (cfg.sidecar = true ∧ p = sidecarLoc cfg)
+        ∨ (p <+: outLoc cfg ∧ fs p = .absent)) := by
+  intro a ha p hp
+  obtain ⟨output, ho, hd⟩ := force_only_touches_output cfg fs a ha p hp
+  refine ⟨by simp [ho], ?_⟩
+  simp only [outLoc, sidecarLoc, ho, Option.getD_some]
+  rcases hd with hd | ⟨hf, _⟩ | hd | hd
+  · exact Or.inl hd
+  · exact absurd hf hfm
+  · exact Or.inr (Or.inl hd)
+  · exact Or.inr (Or.inr hd)
+
+/-- never the input, never siblings: an existing entry that is not the location of the output
+string, not inside the output folder (folder modes), and not the requested sidecar survives
+every run, forced or not — under every aliasing `rho`. -/
 theorem bystander_untouched (cfg : Cfg) (fs : FS) (p : Loc) (hex : fs p ≠ .absent)
-    (hout : ¬ outLoc cfg <+: p) (hsc : ¬ (cfg.sidecar = true ∧ p = sidecarLoc cfg)) :
+    (hout : p ≠ outLoc cfg) (hin : FolderMode cfg → ¬ outLoc cfg <+: p)
+    (hsc : ¬ (cfg.sidecar = true ∧ p = sidecarLoc cfg)) :
     (run cfg fs).st.fs p = fs p := by
   apply undeclared_untouched
-  rintro (h | h | ⟨_, h⟩)
+  rintro ⟨output, ho, hd⟩
+  simp only [outLoc, sidecarLoc, ho, Option.getD_some] at hout hin hsc
+  rcases hd with h | ⟨hf, h⟩ | h | ⟨_, h⟩
   · exact hout h
+  · exact hin hf h
   · exact hsc h
   · exact hex h
 
-/-- the input in particular -/
+/-- the input in particular: it survives unless the output string (or the sidecar string)
+leads to the very same location, or the input lies inside the output folder. -/
 theorem input_untouched (cfg : Cfg) (fs : FS) (path : RawPath) (_hp : cfg.path = some path)
-    (hex : fs (resolve path) ≠ .absent) (hout : ¬ outLoc cfg <+: resolve path)
-    (hsc : ¬ (cfg.sidecar = true ∧ resolve path = sidecarLoc cfg)) :
-    (run cfg fs).st.fs (resolve path) = fs (resolve path) :=
-  bystander_untouched cfg fs _ hex hout hsc
+    (hex : fs (cfg.rho path) ≠ .absent) (hout : cfg.rho path ≠ outLoc cfg)
+    (hin : FolderMode cfg → ¬ outLoc cfg <+: cfg.rho path)
+    (hsc : ¬ (cfg.sidecar = true ∧ cfg.rho path = sidecarLoc cfg)) :
+    (run cfg fs).st.fs (cfg.rho path) = fs (cfg.rho path) :=
+  bystander_untouched cfg fs _ hex hout hin hsc
 
-/-- **Signing onto the input needs `--force`**: with a manifest definition, an output path
-that names the input file (same spelling or an alias such as `./in.jpg`) and no `--force`,
-the run stops with "Output already exists" before doing anything. -/
+/-- **Signing onto the input needs `--force`, under every alias**: with a manifest
+definition, an output string that leads to the location of the input (same spelling,
+`./in.jpg`, `sub/../in.jpg`, an absolute path, a path through a directory link, … — any
+`rho`) and no `--force`, the run refuses ("Output already exists", or "Output type must
+match" when the two spellings differ in their extension) before doing anything. -/
 theorem same_path_needs_force (cfg : Cfg) (fs : FS) (path output : RawPath)
     (hp : cfg.path = some path) (ho : cfg.output = some output) (hm : cfg.msrc ≠ .none)
     (hcmd : ∀ g r, cfg.cmd ≠ .fragment g r) (hearly : cfg.early = false)
     (hsetup : cfg.setupOk = true)
-    (hsame : resolve output = resolve path) (hex : fs (resolve path) ≠ .absent)
+    (hsame : cfg.rho output = cfg.rho path) (hex : fs (cfg.rho path) ≠ .absent)
     (hf : cfg.force = false) :
-    (run cfg fs).outcome = .exists ∧ (run cfg fs).st.acts = [] := by
-  have hext : extNormal output = extNormal path := by
-    unfold extNormal extension fileName
-    rw [hsame]
-  have hpe : pExists { fs := fs, acts := [] } output = true := by
+    ((run cfg fs).outcome = .exists ∨ (run cfg fs).outcome = .typeMismatch)
+      ∧ (run cfg fs).st.acts = [] := by
+  have hpe : pExists cfg { fs := fs, acts := [] } output = true := by
     simp only [pExists, locExists, hsame]
     simpa using hex
   have hchk : outputCheck cfg path output { fs := fs, acts := [] } = none := by
     unfold outputCheck
     simp [hpe, hf]
-  have hsb : signBranch cfg path output { fs := fs, acts := [] } = ⟨.exists, { fs := fs, acts := [] }⟩ := by
+  have hsb : signBranch cfg path output { fs := fs, acts := [] }
+        = ⟨.exists, { fs := fs, acts := [] }⟩
+      ∨ signBranch cfg path output { fs := fs, acts := [] }
+        = ⟨.typeMismatch, { fs := fs, acts := [] }⟩ := by
     unfold signBranch
-    simp [hext, hchk]
+    by_cases hext : extNormal output = extNormal path
+    · left; simp [hext, hchk]
+    · right; simp [hext]
   have hmne : (cfg.msrc != MSrc.none) = true := by simpa using hm
-  have hrun : run cfg fs = ⟨.exists, { fs := fs, acts := [] }⟩ := by
+  have hrun : run cfg fs = signBranch cfg path output { fs := fs, acts := [] } := by
     unfold run runSt
     simp only [hp, ho, hearly, hsetup, hmne]
     cases hc : cfg.cmd with
-    | none => simp [hsb]
-    | trust => simp [hsb]
+    | none => simp
+    | trust => simp
     | fragment g r => exact absurd hc (hcmd g r)
   rw [hrun]
-  exact ⟨rfl, rfl⟩
+  rcases hsb with hsb | hsb <;> rw [hsb]
+  · exact ⟨Or.inl rfl, rfl⟩
+  · exact ⟨Or.inr rfl, rfl⟩
 
 /-- corollary of `no_clobber_without_force`: whenever a run touches the (existing) input,
 `--force` was given. -/
 theorem touching_input_needs_force (cfg : Cfg) (fs : FS) (hwf : WF fs) (path : RawPath)
-    (hex : fs (resolve path) ≠ .absent) (a : Action) (ha : a ∈ (run cfg fs).st.acts)
-    (ht : a.touches (resolve path) = true) : cfg.force = true := by
+    (hex : fs (cfg.rho path) ≠ .absent) (a : Action) (ha : a ∈ (run cfg fs).st.acts)
+    (ht : a.touches (cfg.rho path) = true) : cfg.force = true := by
   cases hf : cfg.force with
   | true => rfl
   | false => exact absurd (no_clobber_without_force cfg fs hwf hf a ha _ ht) hex
+
+/-! ### refusals
+
+"Refusal" = the tool stops at one of its own argument / existence checks (as opposed to an
+operation failing). The natural reading "a refusal has done nothing" is *false* for the code:
+with `--force` the existing output is removed *before* the "Missing filename" / "Missing
+extension" checks (main.rs: `remove_file(&output)?` precedes `output.extension().is_none()`).
+The property statement permits this (force was requested and the removed file is the declared
+output), so it is recorded as a proved witness, replayed on the binary by the harness
+(`witness-force-refusal`), and the true part is proved in full. -/
+
+def Outcome.refusal : Outcome → Bool
+  | .usage | .needPath | .exists | .typeMismatch | .noFilename | .noExtension
+  | .needManifest | .needOutput | .notFolder | .fragFile | .fragGlob => true
+  | .ok | .readonly | .fail => false
+
+/-- full statement (false for the code, see `not_refusalClean`) -/
+def RefusalClean : Prop :=
+  ∀ (cfg : Cfg) (fs : FS), WF fs → (run cfg fs).outcome.refusal = true → (run cfg fs).st.acts = []
+
+theorem outputCheck_shape {cfg : Cfg} {path output : RawPath} {st st1 : St}
+    (e : outputCheck cfg path output st = some (some st1)) :
+    st1 = st ∨ (cfg.force = true ∧ pathEq output path = false
+      ∧ isFile st (cfg.rho output) = true ∧ st1 = emit (.remove (cfg.rho output)) st) := by
+  unfold outputCheck at e
+  split at e
+  · split at e
+    · rename_i hf
+      simp only [Bool.and_eq_true, Bool.not_eq_true'] at hf
+      split at e
+      · rename_i s e'
+        cases e
+        unfold removeFile at e'
+        split at e'
+        · rename_i hfile
+          cases e'
+          exact Or.inr ⟨hf.1, hf.2, hfile, rfl⟩
+        · cases e'
+      · cases e
+    · split at e
+      · cases e
+      · cases e; exact Or.inl rfl
+  · cases e; exact Or.inl rfl
+
+theorem signFile_outcome (cfg : Cfg) (src out : Loc) (c : Content) (st : St) :
+    (signFile cfg src out c st).1.refusal = false := by
+  unfold signFile
+  repeat' split
+  all_goals rfl
+
+theorem signInPlace_outcome (cfg : Cfg) (src out : Loc) (c : Content) (st : St) :
+    (signInPlace cfg src out c st).1.refusal = false := by
+  unfold signInPlace
+  repeat' split
+  all_goals rfl
+
+theorem signTail_outcome (cfg : Cfg) (sc : Loc) (r : Outcome × St) (h : r.1.refusal = false) :
+    (signTail cfg sc r).outcome.refusal = false := by
+  unfold signTail
+  split
+  · exact h
+  · repeat' split
+    all_goals rfl
+
+/-- what a refusal of the signing arm has done: nothing, or exactly the forced removal of the
+existing output followed by "Missing filename"/"Missing extension" -/
+def SignShape (cfg : Cfg) (path output : RawPath) (st : St) (r : Res) : Prop :=
+  r.outcome.refusal = true →
+    r.st = st ∨ (cfg.force = true ∧ pathEq output path = false
+      ∧ (r.outcome = .noFilename ∨ r.outcome = .noExtension)
+      ∧ isFile st (cfg.rho output) = true ∧ r.st = emit (.remove (cfg.rho output)) st)
+
+theorem signBranch_refusal (cfg : Cfg) (path output : RawPath) (st : St) :
+    SignShape cfg path output st (signBranch cfg path output st) := by
+  unfold signBranch
+  dsimp only
+  split
+  · exact fun _ => Or.inl rfl
+  · split
+    · exact fun _ => Or.inl rfl
+    · exact fun _ => Or.inl rfl
+    · rename_i st1 e
+      have sh := outputCheck_shape e
+      split
+      · rename_i hsc
+        intro _
+        left
+        rcases sh with sh | ⟨hf, _⟩
+        · exact sh
+        · simp [hf] at hsc
+      · split
+        · intro _
+          rcases sh with sh | ⟨hf, hp, hfile, hst⟩
+          · exact Or.inl sh
+          · exact Or.inr ⟨hf, hp, Or.inl rfl, hfile, hst⟩
+        · split
+          · intro _
+            rcases sh with sh | ⟨hf, hp, hfile, hst⟩
+            · exact Or.inl sh
+            · exact Or.inr ⟨hf, hp, Or.inr rfl, hfile, hst⟩
+          · intro hr
+            have : (signStep cfg path output st1).1.refusal = false := by
+              unfold signStep
+              split
+              · exact signFile_outcome ..
+              · exact signInPlace_outcome ..
+            rw [signTail_outcome _ _ _ this] at hr
+            cases hr
+
+theorem fragBranch_refusal (cfg : Cfg) (output : RawPath) (glob : Bool) (rends : List Rend)
+    (st : St) (hr : (fragBranch cfg output glob rends st).outcome.refusal = true) :
+    (fragBranch cfg output glob rends st).st = st := by
+  revert hr
+  unfold fragBranch
+  dsimp only
+  repeat' split
+  all_goals first
+    | exact fun _ => rfl
+    | (intro hr; cases hr)
+
+theorem folderBranch_refusal (cfg : Cfg) (path output : RawPath) (st : St)
+    (hr : (folderBranch cfg path output st).outcome.refusal = true) :
+    (folderBranch cfg path output st).st = st := by
+  revert hr
+  unfold folderBranch
+  dsimp only
+  repeat' split
+  all_goals first
+    | exact fun _ => rfl
+    | (intro hr; cases hr)
+
+/-- **What a refusing run has done — exact characterisation.** Either nothing at all, or:
+`--force` was given, the output string differs from the PATH string, the output location held
+a file, the refusal is "Missing filename"/"Missing extension", and the run consists of
+exactly one action, the removal of that file. -/
+theorem refusal_acts (cfg : Cfg) (fs : FS) (hr : (run cfg fs).outcome.refusal = true) :
+    (run cfg fs).st.acts = []
+    ∨ (cfg.force = true
+        ∧ ((run cfg fs).outcome = .noFilename ∨ (run cfg fs).outcome = .noExtension)
+        ∧ ∃ path output, cfg.path = some path ∧ cfg.output = some output
+            ∧ pathEq output path = false
+            ∧ (∃ c, fs (cfg.rho output) = .file c)
+            ∧ (run cfg fs).st.acts = [.remove (cfg.rho output)]) := by
+  revert hr
+  unfold run runSt
+  split
+  · exact fun _ => Or.inl rfl
+  · split
+    · exact fun _ => Or.inl rfl
+    · rename_i path hpath
+      split
+      · exact fun _ => Or.inl rfl
+      · split
+        · split
+          · exact fun _ => Or.inl rfl
+          · split
+            · exact fun _ => Or.inl rfl
+            · rename_i output ho
+              split
+              · intro hr
+                rw [fragBranch_refusal _ _ _ _ _ hr]
+                exact Or.inl rfl
+              · intro hr
+                rcases signBranch_refusal cfg path output _ hr with hs | ⟨hf, hp, ho', hfile, hst⟩
+                · rw [hs]; exact Or.inl rfl
+                · right
+                  refine ⟨hf, ho', path, output, hpath, ho, hp, ?_, ?_⟩
+                  · unfold isFile at hfile
+                    dsimp only at hfile
+                    split at hfile
+                    · rename_i c hc; exact ⟨c, hc⟩
+                    · cases hfile
+                  · rw [hst]; rfl
+        · split
+          · exact fun _ => Or.inl rfl
+          · split
+            · intro hr
+              rw [folderBranch_refusal _ _ _ _ hr]
+              exact Or.inl rfl
+            · exact fun _ => Or.inl rfl
+
+/-- `RefusalClean` restricted to what is true: every refusal without `--force`, and every
+refusal other than "Missing filename"/"Missing extension", has performed no action. -/
+theorem refusal_clean_partial (cfg : Cfg) (fs : FS) (hr : (run cfg fs).outcome.refusal = true)
+    (h : cfg.force = false
+      ∨ ((run cfg fs).outcome ≠ .noFilename ∧ (run cfg fs).outcome ≠ .noExtension)) :
+    (run cfg fs).st.acts = [] := by
+  rcases refusal_acts cfg fs hr with h0 | ⟨hf, ho, _⟩
+  · exact h0
+  · rcases h with h | ⟨h1, h2⟩
+    · rw [hf] at h; cases h
+    · rcases ho with ho | ho
+      · exact absurd ho h1
+      · exact absurd ho h2
+
+/-- witness: `c2patool in -m m.json -o out -f` with existing files `in` and `out` -/
+def fsW : FS := fun p =>
+  if p = [] then .dir else if p = ["in"] then .file .pre else if p = ["out"] then .file .pre
+  else .absent
+
+theorem fsW_wf : WF fsW := by
+  intro p hne hp
+  unfold fsW at hp ⊢
+  by_cases h1 : p = ["in"]
+  · subst h1; simp
+  by_cases h2 : p = ["out"]
+  · subst h2; simp
+  simp [hne, h1, h2] at hp
+
+def cfgW : Cfg := { path := some ["in"], output := some ["out"], msrc := .file, force := true }
+
+/-- the forced run refuses with "Missing extension" *after* deleting the output -/
+theorem force_refusal_destroys_output :
+    (run cfgW fsW).outcome = .noExtension ∧ (run cfgW fsW).st.acts = [.remove ["out"]]
+      ∧ (run cfgW fsW).st.fs ["out"] = .absent := by
+  refine ⟨?_, ?_, ?_⟩ <;> decide
+
+/-- The code falsifies `RefusalClean`. (Replayed on the binary by the harness:
+obligation `witness-force-refusal`.) -/
+theorem not_refusalClean : ¬ RefusalClean := by
+  intro h
+  have := h cfgW fsW fsW_wf (by decide)
+  revert this
+  decide
 
 /-! ### "reported as signed" at model level -/
 
@@ -223,6 +516,19 @@ theorem writeFile_post {p : Loc} {c : Content} {st st' : St} (e : writeFile p c 
   · cases e; simp [emit, apply]
   · split at e
     · cases e; simp [emit, apply]
+    · cases e
+
+theorem writeFile_frame {p q : Loc} {c : Content} {st st' : St} (e : writeFile p c st = some st')
+    (hq : q ≠ p) : st'.fs q = st.fs q := by
+  have hq' : (p == q) = false := by
+    simp only [beq_eq_false_iff_ne, ne_eq]
+    exact fun h => hq h.symm
+  unfold writeFile at e
+  split at e
+  · cases e
+  · cases e; simp [emit, apply, hq']
+  · split at e
+    · cases e; simp [emit, apply, hq']
     · cases e
 
 theorem signFile_ok {cfg : Cfg} {src out : Loc} {c : Content} {st : St}
@@ -279,15 +585,64 @@ theorem signInPlace_ok {cfg : Cfg} {src out : Loc} {c : Content} {st : St}
           · rename_i st2 e2
             exact writeFile_post e2
 
+theorem signStep_ok {cfg : Cfg} {path output : RawPath} {st : St}
+    (h : (signStep cfg path output st).1 = .ok) :
+    (signStep cfg path output st).2.fs (cfg.rho output) = .file (signContent cfg) := by
+  unfold signStep at h ⊢
+  split
+  · rename_i hpe
+    simp only [hpe] at h
+    exact signFile_ok h
+  · rename_i hpe
+    simp only [hpe] at h
+    exact signInPlace_ok h
+
+/-- an `ok` tail: the signing step was `ok`, the sidecar (when asked for) holds the manifest
+store, everything else is as the signing step left it -/
+theorem signTail_ok {cfg : Cfg} {sc : Loc} {r : Outcome × St}
+    (hok : (signTail cfg sc r).outcome = .ok) :
+    r.1 = .ok ∧ (cfg.sidecar = true → (signTail cfg sc r).st.fs sc = .file .c2pa)
+      ∧ ∀ q, (cfg.sidecar = true → q ≠ sc) → (signTail cfg sc r).st.fs q = r.2.fs q := by
+  unfold signTail at hok ⊢
+  split
+  · rename_i hc
+    simp only [hc, if_true] at hok
+    have : ¬ r.1 = Outcome.ok := by simpa using hc
+    exact absurd hok this
+  · rename_i hc
+    have h1 : r.1 = .ok := by simpa using hc
+    simp only [hc] at hok
+    split
+    · rename_i e3; simp [e3] at hok
+    · rename_i st3 e3
+      have hfin : ∀ x, (if cfg.reportOk = true then (⟨Outcome.ok, st3⟩ : Res)
+          else ⟨Outcome.fail, st3⟩).st.fs x = st3.fs x := by
+        intro x; split <;> rfl
+      refine ⟨h1, fun hs => ?_, fun q hq => ?_⟩
+      · rw [hfin]
+        simp only [hs, if_true] at e3
+        exact writeFile_post e3
+      · rw [hfin]
+        cases hs : cfg.sidecar with
+        | true =>
+          simp only [hs, if_true] at e3
+          exact writeFile_frame e3 (hq hs)
+        | false =>
+          simp only [hs] at e3
+          cases e3
+          rfl
+
 /-- A signing run (manifest definition, no `fragment` sub-command) that ends `ok` — the
-tool printed the report of the signed output — has written the sidecar when `--sidecar`
-was given, and otherwise left a file with an embedded manifest at the output path. -/
+tool printed the report of the signed output — has left, at the location of the output
+string, the signed asset written by this run (embedded manifest; with `--sidecar` the
+untouched copy or the copy with the remote reference), and, with `--sidecar`, the manifest
+store at the sidecar location. -/
 theorem signed_ok_output_present (cfg : Cfg) (path output : RawPath) (st : St)
     (hok : (signBranch cfg path output st).outcome = .ok) :
     (cfg.sidecar = true →
-      (signBranch cfg path output st).st.fs (resolve (withExtension output "c2pa")) = .file .c2pa)
-    ∧ (cfg.sidecar = false →
-      (signBranch cfg path output st).st.fs (resolve output) = .file .embedded) := by
+      (signBranch cfg path output st).st.fs (cfg.rho (withExtension output "c2pa")) = .file .c2pa)
+    ∧ ((cfg.sidecar = true → cfg.rho output ≠ cfg.rho (withExtension output "c2pa")) →
+      (signBranch cfg path output st).st.fs (cfg.rho output) = .file (signContent cfg)) := by
   unfold signBranch at hok ⊢
   dsimp only at hok ⊢
   split
@@ -311,39 +666,107 @@ theorem signed_ok_output_present (cfg : Cfg) (path output : RawPath) (st : St)
           · rename_i hc4; simp [hc4] at hok
           · rename_i hc4
             simp only [hc4] at hok
-            -- the tail
-            unfold signTail at hok ⊢
-            split
-            · rename_i hc5
-              simp only [hc5, if_true] at hok
-              have hc5' : ¬ (signStep cfg path output st1).fst = Outcome.ok := by simpa using hc5
-              exact absurd (by simpa using hok) hc5'
-            · rename_i hc5
-              simp only [hc5] at hok
-              have hstep : (signStep cfg path output st1).1 = .ok := by simpa using hc5
-              split
-              · rename_i e3; simp [e3] at hok
-              · rename_i st3 e3
-                have hfin : ∀ x, (if cfg.reportOk = true then (⟨Outcome.ok, st3⟩ : Res)
-                    else ⟨Outcome.fail, st3⟩).st.fs x = st3.fs x := by
-                  intro x; split <;> rfl
-                refine ⟨fun hs => ?_, fun hs => ?_⟩
-                · rw [hfin]
-                  simp only [hs, if_true] at e3
-                  exact writeFile_post e3
-                · rw [hfin]
-                  simp only [hs] at e3
-                  cases e3
-                  unfold signStep at hstep ⊢
+            obtain ⟨hstep, hsc, hframe⟩ := signTail_ok hok
+            refine ⟨hsc, fun hne => ?_⟩
+            rw [hframe _ hne]
+            exact signStep_ok hstep
+
+/-- the second loop of the fragment arm: when it succeeds every init destination holds a
+signed init segment -/
+theorem initLoop_ok {out : Loc} (rs : List Rend) : ∀ (st st' : St),
+    initLoop out rs st = (true, st') →
+    (∀ r ∈ rs, ∃ d, initDest out r = some d ∧ st'.fs d = .file .init)
+      ∧ (∀ q, st.fs q = .file .init → st'.fs q = .file .init) := by
+  induction rs with
+  | nil =>
+    intro st st' h
+    unfold initLoop at h
+    cases h
+    exact ⟨fun _ hr => (nomatch hr), fun _ hq => hq⟩
+  | cons r rs ih =>
+    intro st st' h
+    unfold initLoop at h
+    split at h
+    · simp at h
+    · rename_i d hd
+      split at h
+      · simp at h
+      · rename_i st1 e1
+        obtain ⟨hA, hB⟩ := ih st1 st' h
+        have hstep : ∀ q, st.fs q = .file .init → st1.fs q = .file .init := by
+          intro q hq
+          by_cases hqd : q = d
+          · subst hqd; exact writeFile_post e1
+          · rw [writeFile_frame e1 hqd]; exact hq
+        refine ⟨?_, fun q hq => hB q (hstep q hq)⟩
+        intro r' hr'
+        rcases List.mem_cons.mp hr' with rfl | hr'
+        · exact ⟨d, hd, hB d (writeFile_post e1)⟩
+        · exact hA r' hr'
+
+/-- **`fragment` run reported as signed**: an `ok` outcome with at least one matched init
+segment means that for *every* matched init segment the destination
+`<output>/<init folder>/<init name>` holds the signed init segment written by this run. -/
+theorem frag_ok_inits_present (cfg : Cfg) (output : RawPath) (glob : Bool) (rends : List Rend)
+    (st : St) (hok : (fragBranch cfg output glob rends st).outcome = .ok) (hne : rends ≠ []) :
+    ∀ r ∈ rends, ∃ d, initDest (cfg.rho output) r = some d
+      ∧ (fragBranch cfg output glob rends st).st.fs d = .file .init := by
+  revert hok
+  unfold fragBranch
+  dsimp only
+  split
+  · intro h; cases h
+  · split
+    · intro h; cases h
+    · split
+      · intro h; cases h
+      · split
+        · rename_i hemp
+          exact absurd (List.isEmpty_iff.mp hemp) hne
+        · split
+          · intro h; cases h
+          · split
+            · intro h; cases h
+            · split
+              · intro h; cases h
+              · split
+                · intro h; cases h
+                · rename_i st3 e3
                   split
-                  · rename_i hpe
-                    simp only [hpe] at hstep
-                    have := signFile_ok hstep
-                    simpa [signContent, hs] using this
-                  · rename_i hpe
-                    simp only [hpe] at hstep
-                    have := signInPlace_ok hstep
-                    simpa [signContent, hs] using this
+                  · intro _
+                    exact (initLoop_ok rends _ st3 e3).1
+                  · intro h; cases h
+
+/-- **report / ingredient folder run that ends `ok`** has written the report file into the
+output folder -/
+theorem folder_ok_report_present (cfg : Cfg) (path output : RawPath) (st : St)
+    (hok : (folderBranch cfg path output st).outcome = .ok) :
+    (folderBranch cfg path output st).st.fs
+      (cfg.rho output ++ [if cfg.ingredient = true then "ingredient.json" else "manifest_store.json"])
+      = .file .report := by
+  revert hok
+  unfold folderBranch
+  dsimp only
+  split
+  · intro h; cases h
+  · split
+    · intro h; cases h
+    · intro h; cases h
+    · split
+      · intro h; cases h
+      · split
+        · rename_i hing
+          try simp only [hing, if_true]
+          repeat' split
+          all_goals first
+            | (intro h; cases h; done)
+            | (rename_i e; intro _; exact writeFile_post e)
+        · rename_i hing
+          try simp only [hing, if_false]
+          repeat' split
+          all_goals first
+            | (intro h; cases h; done)
+            | (rename_i e; intro _; exact writeFile_post e)
 
 /-! ### non-vacuity -/
 
@@ -408,11 +831,42 @@ example : (run { path := some ["in.jpg"], output := some ["rep"], msrc := .none,
 example : resolve [".", "in.jpg"] = resolve ["in.jpg"] ∧ pathEq [".", "in.jpg"] ["in.jpg"] = false := by
   constructor <;> decide
 
+/-- an aliasing `rho`: `sub/../in.jpg`, an absolute spelling and a path through a directory
+link all lead to `[in.jpg]` -/
+def rhoEx : RawPath → Loc :=
+  rhoOf [(["sub", "..", "in.jpg"], ["in.jpg"]), (["@", "in.jpg"], ["in.jpg"]),
+         (["ln", "in.jpg"], ["in.jpg"]), (["sub", "..", "in.c2pa"], ["in.c2pa"])]
+
+/-- `same_path_needs_force` under such an alias: refused, nothing done … -/
+example : (run { cfgSign "x" false false with output := some ["sub", "..", "in.jpg"], rho := rhoEx } fsEx).outcome = .exists
+    ∧ (run { cfgSign "x" false false with output := some ["@", "in.jpg"], rho := rhoEx } fsEx).outcome = .exists
+    ∧ (run { cfgSign "x" false false with output := some ["ln", "in.jpg"], rho := rhoEx } fsEx).st.acts = [] := by
+  refine ⟨?_, ?_, ?_⟩ <;> decide
+
 /-- forced alias run: the model (like the tool) removes the input and then fails — the
-declared output *is* the input here; `force_only_touches_output` is not violated. -/
+declared output *is* the input here; `force_only_touches_output` is not violated. The same
+happens through any other alias. -/
 example : (run { path := some ["in.jpg"], output := some [".", "in.jpg"], msrc := .file, force := true } fsEx).outcome = .fail
     ∧ (run { path := some ["in.jpg"], output := some [".", "in.jpg"], msrc := .file, force := true } fsEx).st.acts
+      = [.remove ["in.jpg"]]
+    ∧ (run { cfgSign "x" false true with output := some ["sub", "..", "in.jpg"], rho := rhoEx } fsEx).st.acts
       = [.remove ["in.jpg"]] := by
+  refine ⟨?_, ?_, ?_⟩ <;> decide
+
+/-- `-o .` in signing mode: refused without any action, forced or not (`remove_file(".")`
+fails on a directory), so `sign_mode_touches` is not about an empty action list only because
+of the examples above -/
+example : (run { path := some ["in"], output := some ["."], msrc := .file, force := true } fsW).st.acts = []
+    ∧ (run { path := some ["in"], output := some ["."], msrc := .file } fsW).outcome = .exists := by
+  constructor <;> decide
+
+def cfgFrag : Cfg :=
+  { path := some ["rend", "init.mp4"], output := some ["fo"], msrc := .file,
+    cmd := .fragment true [⟨some "rend", "init.mp4", ["s1.m4s"]⟩] }
+
+/-- `frag_ok_inits_present` is met by a run that writes -/
+example : (run cfgFrag fsEx).outcome = .ok
+    ∧ (run cfgFrag fsEx).st.fs ["fo", "rend", "init.mp4"] = .file .init := by
   constructor <;> decide
 
 end C2pa.C32
